@@ -19,10 +19,11 @@ type Snap struct {
 	nb  [][]table.VerifNeighbor
 	rib [][]table.VerifRibEntry
 	adv []string // canonical string of Rib.Advert() per router
+	raw []*tlv.Advertisement
 }
 
 func (s *Sim) Snap() *Snap {
-	sn := &Snap{s: s, nb: make([][]table.VerifNeighbor, s.G.N), rib: make([][]table.VerifRibEntry, s.G.N), adv: make([]string, s.G.N)}
+	sn := &Snap{s: s, nb: make([][]table.VerifNeighbor, s.G.N), rib: make([][]table.VerifRibEntry, s.G.N), adv: make([]string, s.G.N), raw: make([]*tlv.Advertisement, s.G.N)}
 	for i, n := range s.Nodes {
 		if !n.Up {
 			continue
@@ -31,7 +32,8 @@ func (s *Sim) Snap() *Snap {
 		sort.Slice(sn.nb[i], func(a, b int) bool { return s.IdxH(sn.nb[i][a].NameH) < s.IdxH(sn.nb[i][b].NameH) })
 		sn.rib[i] = n.DV.VerifRib().VerifDump()
 		sort.Slice(sn.rib[i], func(a, b int) bool { return s.IdxH(sn.rib[i][a].NameH) < s.IdxH(sn.rib[i][b].NameH) })
-		sn.adv[i] = advertString(s, n.DV.VerifRib().Advert())
+		sn.raw[i] = n.DV.VerifRib().Advert()
+		sn.adv[i] = advertString(s, sn.raw[i])
 	}
 	return sn
 }
@@ -125,6 +127,12 @@ func (sn *Snap) CanonRouting() string {
 			if v.Active {
 				act = "a"
 			}
+			if j := s.IdxH(v.NameH); j >= 0 && s.Parallel[key(i, j)] {
+				// parallel faces, strictly alternating sync Interests: the stored face is always "the
+				// one the next sync Interest will not use"; which of the two it is does not matter
+				fmt.Fprintf(&b, " N(%s %s f*%s)", s.shortH(v.NameH), sn.rel(v), act)
+				continue
+			}
 			fmt.Fprintf(&b, " N(%s %s f%d%s)", s.shortH(v.NameH), sn.rel(v), v.FaceId, act)
 		}
 		for _, e := range sn.rib[i] {
@@ -187,7 +195,7 @@ func (s *Sim) CanonRouting() string { return s.Snap().CanonRouting() }
 func (sn *Snap) Fresh(i, j int) bool {
 	for _, v := range sn.nb[i] {
 		if sn.s.IdxH(v.NameH) == j {
-			return sn.rel(v) == "fresh" && v.FaceId == sn.s.FaceID(i, j) && v.Active == !sn.s.Passive[[2]int{i, j}]
+			return sn.rel(v) == "fresh" && (v.FaceId == sn.s.FaceID(i, j) || sn.s.Parallel[key(i, j)]) && v.Active == !sn.s.Passive[[2]int{i, j}]
 		}
 	}
 	return false
